@@ -23,7 +23,8 @@ def sync_coq_copy():
     if COQ == COQ_SRC:
         return
     os.makedirs(COQ, exist_ok=True)
-    subprocess.run(["rsync", "-a", "--delete", "--include=*/", "--include=*.v", "--exclude=*", "--exclude=Gen/Consts.v",
+    # -c / no -t: a file is transferred only when its content differs and then gets a fresh mtime, so make rebuilds it
+    subprocess.run(["rsync", "-rlc", "--delete", "--include=*/", "--include=*.v", "--exclude=*", "--exclude=Gen/Consts.v",
                     COQ_SRC + "/theories", COQ + "/"], check=False)
 GUARD = "MUSCLE_VERIF_HOOKS"
 NCPU = os.cpu_count() or 4
